@@ -21,7 +21,7 @@ func (env *Env) callExpr(c *ast.CallExpr) Value {
 	case *ast.SelectorExpr:
 		// pkg.Type(x) conversion or method-like pseudo call
 		if id, ok := f.X.(*ast.Ident); ok {
-			if p := env.importedPkg(id.Name); p != nil {
+			if p := env.importedPkgFor(id.Name, f.Sel.Name); p != nil {
 				if tn, ok := p.Scope().Lookup(f.Sel.Name).(*types.TypeName); ok && len(c.Args) == 1 {
 					return env.coerce(env.eval(c.Args[0]), tn.Type())
 				}
